@@ -459,12 +459,13 @@ func initTarget(op *Op) *target {
 	out, det := guarded(func() {
 		just := common.Checkpoint{Epoch: common.Epoch(op.J.Epoch), Root: mkRoot(op.J.Root)}
 		fin := common.Checkpoint{Epoch: common.Epoch(op.F.Epoch), Root: mkRoot(op.F.Root)}
-		t.arr = proto.NewProtoArray(mkRoot(op.Parent), mkRoot(op.Root), common.Slot(op.Slot), just.Epoch, fin.Epoch, sink)
-		fc, err := forkchoice.NewForkChoice(spec, fin, just, mkRoot(op.Root), common.Slot(op.Slot), t.arr,
-			proto.NewProtoVoteStore(spec), gweis(op.Bal))
+		// the public constructor, as a client uses it; the graph it wired in is read back through the verif hook
+		fc, err := proto.NewProtoForkChoice(spec, fin, just, mkRoot(op.Root), common.Slot(op.Slot), mkRoot(op.Parent),
+			gweis(op.Bal), sink)
 		op.Ret = &Ret{Ok: b2i(err == nil)}
 		if err == nil {
 			t.fc = fc
+			t.arr = fc.(*forkchoice.ProtoForkChoice).VerifGraph().(*proto.ProtoArray)
 		} else {
 			op.Detail = err.Error()
 		}
